@@ -260,7 +260,15 @@ func run(c *runner.Ctx) {
 	}
 	valid.SetCustomerValidFn("gfn", gfn) // global registration happens before any thread starts
 	d := &deleg{inner: valid.NewLRU()}
-	valid.SetStructTypeCache(d)
+	direct := c.Mode == "direct"
+	if direct {
+		// the library's own *LRUCache handed over as it is (no wrapper in between), capacity 1: whatever the library
+		// attaches to a cache of its own type (callbacks on removal, say) is in play. It can be set once per process;
+		// every execution starts from the same content (the warm-up ends with T2).
+		valid.SetStructTypeCache(valid.NewLRU(1))
+	} else {
+		valid.SetStructTypeCache(d)
+	}
 	menu := callMenu()
 	// solo results (scheduler inactive)
 	solo := make([][]string, 3)
@@ -481,7 +489,14 @@ func run(c *runner.Ctx) {
 		cfgs        []cacheCfg
 	}
 	var plans []plan
-	if !race {
+	if direct {
+		dc := []cacheCfg{{"own LRU(1) passed directly/warm", func() valid.CacheEr { return valid.NewLRU(1) }, true}}
+		if c.Thorough() {
+			plans = []plan{{"2x1-bound3", 2, 1, 3, true, dc}, {"2x2-bound2", 2, 2, 2, false, dc}, {"3x1-bound2", 3, 1, 2, false, dc}}
+		} else {
+			plans = []plan{{"2x1-bound2", 2, 1, 2, false, dc}, {"2x2-bound1", 2, 2, 1, false, dc}}
+		}
+	} else if !race {
 		if c.Thorough() {
 			plans = []plan{{"2x1-bound3", 2, 1, 3, true, cfgs}, {"3x1-bound2", 3, 1, 2, false, cfgs[:2]}, {"2x2-bound1", 2, 2, 1, true, cfgs[:2]}}
 		} else {
@@ -543,6 +558,7 @@ func main() {
 		Run: run,
 		Modes: []runner.Mode{
 			{Name: "plain"},
+			{Name: "direct", Workers: 6},
 			{Name: "race", BinarySuffix: ".race", Env: []string{"GORACE=log_path={W}.race halt_on_error=0 exitcode=0 atexit_sleep_ms=0 history_size=2"}},
 		},
 		QuickBudget:    5 * time.Minute,
